@@ -9,6 +9,11 @@ Cases (Hypothesis):
   chain      1..3 blocks linked by unconditional jumps through run_at.
   loop       counter := k (1..4); body; counter -= 1; IRDst := counter ? body : exit  through run_at
              (control flow the engine resolves because the counter is constant).
+  memcopy    1..2 blocks of memory traffic over small windows of 2..3 symbolic bases (irgen.memcopy_program):
+             memory-to-memory copies done in 1..4 pieces of 1/2/4/8 bytes (any order, sequential or in one
+             AssignBlock), copies through a register, constant / register stores partially overwriting earlier
+             pieces, loads at arbitrary byte offsets spanning several stored pieces; through eval_updt_irblock /
+             run_at.  (What the symbolic memory returns for a cell assembled from several stored values.)
   (random strata: half of the cases start from a given symbolic state -- constructor argument -- binding up to
    3 registers / one memory cell to expressions; register vocabulary x86_32 / aarch64l / msp430 by shard)
   lifted     one random decodable / curated instruction of x86_16/32/64, ARM, Thumb, AArch64, MIPS32,
@@ -578,7 +583,13 @@ def random_case_strategy(kind, arch=RANDOM_ARCH):
     def loop(draw):
         g = draw(irgen.counted_loop(p, depth=1))
         return with_init(draw, {"kind": "loop", "mode": "run_at", "arch": arch, "graph": g, "state": draw(state_strategy())})
-    return {"parallel": par, "block": block, "chain": chain, "loop": loop}[kind]()
+
+    @st.composite
+    def memcopy(draw):
+        g = draw(irgen.memcopy_program(p))
+        mode = "irblock" if len(g["blocks"]) == 1 else "run_at"
+        return {"kind": "memcopy", "mode": mode, "arch": arch, "graph": g, "state": draw(state_strategy())}
+    return {"parallel": par, "block": block, "chain": chain, "loop": loop, "memcopy": memcopy}[kind]()
 
 
 def lifted_case_strategy(arch_name):
@@ -623,7 +634,7 @@ def nontrivial(case, info):
     return case["kind"] == "lifted" and info.get("cond_dst", False)
 
 
-PLAN_Q = [("parallel", 60), ("block", 40), ("chain", 30), ("loop", 25)]     # cases per shard, quick tier
+PLAN_Q = [("parallel", 60), ("block", 40), ("chain", 30), ("loop", 25), ("memcopy", 60)]     # cases per shard, quick tier
 
 
 class C12(Check):
@@ -633,7 +644,9 @@ class C12(Check):
             "a hazard template (swap, 3-rotation, read-after-write, disjoint slices, store with reassigned pointer, "
             "load of the stored cell, two stores) through eval_assignblk + eval_updt_assignblk; 'block' = 1..4 "
             "AssignBlocks + destination through eval_updt_irblock; 'chain' = 2..3 blocks through run_at; 'loop' = "
-            "constant-counter loop through run_at. 'lifted' = one random or curated instruction of 10 architectures "
+            "constant-counter loop through run_at; 'memcopy' = 1..2 blocks of piecewise memory-to-memory copies (1..4 pieces "
+            "of 1/2/4/8 bytes), copies through a register, partially overwriting stores and loads at arbitrary byte "
+            "offsets over ~24-byte windows of 2..3 symbolic bases, then 2..4 final loads. 'lifted' = one random or curated instruction of 10 architectures "
             "lifted with add_instr_to_ircfg and driven with run_block_at. Concrete state: pointer registers >= 2^20 "
             "apart, others hashed / boundary values, total hash memory. Compared: every register, every stored cell, "
             "every concretely written byte, destination, block path. Non-trivial: >=1 memory write and >=2 "
